@@ -15,11 +15,11 @@ COMPLEX_COEFS = (1j, -1j, 1 + 1j, 2 - 1j, 0.5j, 1.0 + 0j, -2.0 + 0j, 0j)
 
 
 def coef_pool(kind: str):
-    return {"int": INT_COEFS, "float": FLOAT_COEFS, "complex": COMPLEX_COEFS}[kind]
+    return {"int": INT_COEFS, "float": FLOAT_COEFS, "complex": COMPLEX_COEFS, "bool": (True, False, True)}[kind]
 
 
 def dtype_of(kind: str) -> str:
-    return {"int": "int64", "float": "float64", "complex": "complex128"}[kind]
+    return {"int": "int64", "float": "float64", "complex": "complex128", "bool": "bool"}[kind]
 
 
 def rand_shape(rng: random.Random, maxdim=3):
@@ -97,7 +97,11 @@ def rand_numeric(rng: random.Random, shape=(), kind="int"):
     pool = coef_pool(kind)
     size = int(numpy.prod(shape, dtype=int))
     vals = [rng.choice(pool) for _ in range(size)]
-    arr = numpy.array(vals, dtype=dtype_of(kind)).reshape(shape)
+    dtype = dtype_of(kind)
+    if rng.random() < 0.15:
+        # narrower numpy types of the same kind (values are small: exactly representable)
+        dtype = {"int": rng.choice(["int32", "int16"]), "float": "float32", "complex": "complex64", "bool": "bool"}[kind]
+    arr = numpy.array(vals, dtype=dtype).reshape(shape)
     if shape == ():
         c = rng.random()
         if c < 0.4:
@@ -105,8 +109,11 @@ def rand_numeric(rng: random.Random, shape=(), kind="int"):
         if c < 0.7:
             return arr[()]
         return arr
-    if rng.random() < 0.4:
+    c = rng.random()
+    if c < 0.35:
         return arr.tolist()
+    if c < 0.45 and len(shape) == 1:
+        return tuple(arr.tolist())
     return arr
 
 
